@@ -213,7 +213,7 @@ def run(tier, seed):
     with mp.get_context("fork").Pool(16) as pool:
         res = pool.map(_chunk, [c for c in chunks if c], chunksize=1)
         extra = pool.map(eval_extra, EXTRA, chunksize=1)
-        hist = pool.apply(history_check, (500 if tier == "quick" else 10000,))
+        hist = pool.apply(history_check, (500 if tier == "quick" else 3000,))
     n = sum(r[0] for r in res) + len(EXTRA)
     vio = {}
     skipped = 0
